@@ -1,6 +1,6 @@
 #!/bin/bash
 # tools/try_seeds.sh "Cxx mN" ...  -- run the property's quick check against each candidate seed in /tmp/seed_Cxx/mN
-cd /verif
+cd "$(dirname "$0")/.."; export VERIF_REPO="${VERIF_REPO:-/repo}"
 for pair in "$@"; do
   set -- $pair; P=$1; M=$2
   S=$(date +%s)
